@@ -363,6 +363,113 @@ def wiring(ctx):
                    replayer="c03_balance")
 
 
+# ------------------------------------------------------------------------------------------ mode statistics: one scale matrix
+def mode_statistics_consistent(ctx):
+    """ModeStatistics.__init__: the inverse used by the Student-t factor / gamma scale and the Cholesky factor used for the proposal
+    noise are computed from one and the same stored scale matrices (otherwise the proposal is not reversible w.r.t. t_nu(mu, Sigma))."""
+    info = {}
+
+    def rec(kind):
+        def h(I, st, args, kw, node):
+            a = st.arr(args[0])
+            st.ghost[kind] = st.ghost.get(kind, []) + [a]
+            return st.new_arr(fresh_arr(a.shape, "real", kind))
+        return h
+
+    def setup(I, st):
+        K, d = fresh_scalar("int", "K"), fresh_scalar("int", "d")
+        st.assume(z3.And(K >= 1, d >= 1))
+        cov = fresh_arr((K, d, d), "real", "Sigma")
+        obj = st.new_obj("ModeStatistics", __module__="tempest.modes")
+        info.update(K=K, d=d, cov=cov, obj=obj)
+        return dict(self_val=obj, kwargs=dict(means=st.new_arr(fresh_arr((K, d), "real", "mu")), covariances=st.new_arr(cov),
+                                              degrees_of_freedom=st.new_arr(fresh_arr((K,), "real", "nu"))))
+
+    def post(I, o, pre):
+        st = o.state
+        invs, chols = st.ghost.get("inv", []), st.ghost.get("chol", [])
+        g = [("one-inverse-one-cholesky", len(invs) == 1 and len(chols) == 1)]
+        if len(invs) == 1 and len(chols) == 1:
+            k, a, b = z3.Int(fresh_name("k")), z3.Int(fresh_name("a")), z3.Int(fresh_name("b"))
+            K, d, S = info["K"], info["d"], info["cov"]
+            rng = z3.And(k >= 0, k < K, a >= 0, a < d, b >= 0, b < d)
+            for nm, X in (("inverse", invs[0]), ("cholesky-factor", chols[0])):
+                ok = X.ndim == 3
+                g.append((f"{nm}-is-taken-of-the-given-scale-matrices",
+                          z3.ForAll([k, a, b], z3.Implies(rng, X.at(k, a, b) == S.at(k, a, b))) if ok else False))
+            stored = st.arr(st.cell(info["obj"])["covariances"])
+            g.append(("stored-scale-matrices-are-the-given-ones", z3.ForAll([k, a, b], z3.Implies(rng, stored.at(k, a, b) == S.at(k, a, b)))
+                      if stored.ndim == 3 else False))
+        return g
+    ctx.verify("", "tempest.modes", "ModeStatistics.__init__", setup, post, extras={"numpy.linalg.inv": rec("inv"), "numpy.linalg.cholesky": rec("chol")},
+               replayer="c03_balance", allowed_raises=())
+
+
+# ------------------------------------------------------------------------------------------ hard boundaries: whole-move rejection
+def out_of_cube_rejection(ctx):
+    """The statements of BaseMCMCRunner.run between the proposal loop and the prior transform: a proposal that fails check_bounds
+    is replaced by the walker's *whole* current point (no coordinate-wise mixing), every other proposal is left untouched."""
+    from pyvc.state import State
+    f = eff.qualname_index(ctx.mods).get((MCMC, "BaseMCMCRunner.run"))
+    ctx.fuc(MCMC, "BaseMCMCRunner.run")
+    loop = next((n for n in (f.body if f else []) if isinstance(n, ast.While)), None)
+    if loop is None:
+        return
+    body = loop.body
+    first_for = next((k for k, s_ in enumerate(body) if isinstance(s_, ast.For)), None)
+    end = next((k for k, s_ in enumerate(body) if isinstance(s_, ast.Assign) and any(isinstance(t, ast.Name) and t.id == "x_prime" for t in s_.targets)), None)
+    if first_for is None or end is None or end <= first_for:
+        ctx.add(ObResult("C03/mcmc.BaseMCMCRunner.run/out-of-cube-rejection/slice-found", "unknown", detail="statement slice not found"))
+        return
+    stmts = body[first_for + 1:end]
+    CB = z3.Function("check_bounds_row", ROW, z3.BoolSort())
+
+    def h_cb(I, st, args, kw, node):
+        a = st.arr(args[0])
+        return st.new_arr(Arr((a.shape[0],), lambda i: CB(row(a, to_z3(i, "int"))), "bool"))
+    I = ctx.interp(registry={(MCMC, "check_bounds"): h_cb})
+    I.cur.append((MCMC, "BaseMCMCRunner.run"))
+    st = State()
+    n, d = fresh_scalar("int", "n"), fresh_scalar("int", "d")
+    st.assume(z3.And(n >= 1, d >= 1))
+    U, UP = fresh_arr((n, d), "real", "u"), fresh_arr((n, d), "real", "u_prime")
+    runner = st.new_obj("BaseMCMCRunner", __module__=MCMC, u=st.new_arr(U), periodic=Opaque("periodic"), reflective=Opaque("reflective"), n_walkers=n)
+    st.env = {"self": runner, "u_prime": st.new_arr(UP)}
+    try:
+        outs = [o for o in I.exec_block(stmts, st, MCMC) if o.kind == "fall"]
+    except (Unsupported, PyRaise, AttributeError, TypeError, KeyError, IndexError, ValueError, z3.Z3Exception) as e:
+        r = ctx.add(ObResult("C03/mcmc.BaseMCMCRunner.run/out-of-cube-rejection/vc-generation", "unknown",
+                             detail=f"outside the supported subset: {type(e).__name__}: {str(e)[:200]}"))
+        r.replayer = "c03_balance"
+        return
+    if len(outs) != 1:
+        r = ctx.add(ObResult("C03/mcmc.BaseMCMCRunner.run/out-of-cube-rejection/vc-generation", "unknown", detail="statements fork or raise"))
+        r.replayer = "c03_balance"
+        return
+    sf = outs[0].state
+    from pyvc import discharge
+    for ob in I.obligations:
+        discharge.discharge(ob, ctx.timeout_ms)
+        ctx.add(ObResult(f"C03/mcmc.BaseMCMCRunner.run/out-of-cube-rejection/{ob.label.split('/', 1)[-1]}", ob.status, ob.backend or "z3", ob.time, 1,
+                         ob.note or "", line=ob.line)).replayer = "c03_balance"
+    up2 = sf.arr(sf.env["u_prime"])
+    i, c = z3.Int(fresh_name("i")), z3.Int(fresh_name("c"))
+    inb = CB(row(UP, i))
+    goal = z3.Implies(z3.And(i >= 0, i < n, c >= 0, c < d), up2.at(i, c) == z3.If(inb, UP.at(i, c), U.at(i, c)))
+    r = ctx.lemma("mcmc.BaseMCMCRunner.run/out-of-cube-rejection/rejected-proposal-is-replaced-by-the-whole-current-point", list(sf.pc), goal, kind="vc",
+                  detail="u'_i stays as proposed when check_bounds accepts it, and becomes u_i in every coordinate otherwise")
+    r.replayer = "c03_balance"
+    oob = sf.env.get("out_of_bounds")
+    if isinstance(oob, Ref):
+        O = sf.arr(oob)
+        r2 = ctx.lemma("mcmc.BaseMCMCRunner.run/out-of-cube-rejection/mask-is-the-negated-bounds-check", list(sf.pc),
+                       z3.Implies(z3.And(i >= 0, i < n), to_z3(O.at(i)) == z3.Not(inb)) if O.ndim == 1 else z3.BoolVal(False), kind="vc")
+        r2.replayer = "c03_balance"
+    else:
+        ctx.add(ObResult("C03/mcmc.BaseMCMCRunner.run/out-of-cube-rejection/mask-is-the-negated-bounds-check", "unknown",
+                         detail="no row mask `out_of_bounds`")).replayer = "c03_balance"
+
+
 # ------------------------------------------------------------------------------------------ L1
 def lemmas(ctx):
     nu, du, dv, p, a, sg, s = z3.Reals("nu delta_u delta_v inner a sigma s")
@@ -443,6 +550,8 @@ def run(ctx):
     sigma_range(ctx)
     structure(ctx)
     wiring(ctx)
+    mode_statistics_consistent(ctx)
+    out_of_cube_rejection(ctx)
     from . import c10
     n0 = len(ctx.results)
     c10.acceptance(ctx)
